@@ -87,8 +87,37 @@ pub fn check_views(st: &mut Stats, s: &Sparse<Rat>, m: &SM, step: &str, hist: &d
     ok
 }
 
+/// A construction / insertion that the library rejects (out-of-range row or column after some valid triplets), caught and
+/// ignored: whatever it leaves behind (scratch buffers, counters) must not reach the next, valid call on this thread.
+pub fn rejected_calls(st: &mut Stats, rng: &mut Rng) {
+    let (rows, cols) = (rng.usize(1, 8), rng.usize(1, 8));
+    let k = rng.usize(0, 6);
+    let mut t: Vec<(usize, usize, Rat)> = (0..k).map(|q| (rng.usize(0, rows - 1), (q * cols / (k + 1)).min(cols - 1), Rat::int(rng.nzint(5)))).collect();
+    t.sort_by_key(|x| x.1); t.dedup_by_key(|x| (x.0, x.1));
+    let bad = match rng.below(3) { 0 => (rows + rng.usize(0, 2), rng.usize(0, cols - 1)), 1 => (rng.usize(0, rows - 1), cols + rng.usize(0, 2)), _ => (rows, cols) };
+    let pos = rng.usize(0, t.len()); t.insert(pos, (bad.0, bad.1, Rat::ONE));
+    let out = catch(|| Sparse::<Rat>::from_triplets(rows, cols, &mut t));
+    st.count(if out.is_ok() { "rejected-calls:accepted(!)" } else { "rejected-calls:from_triplets" });
+    // the very next valid construction on this thread is judged in full, so is the matrix after a rejected insert
+    let m2 = gen_sm(rng, rows, cols, 0.5, false);
+    let mut t2 = m2.triplets(); rng.shuffle(&mut t2);
+    let shown = format!("rejected from_triplets({}x{}, bad triplet {:?} at position {}) then from_triplets({}x{}, {:?})", rows, cols, bad, pos, rows, cols, t2);
+    match catch(|| Sparse::<Rat>::from_triplets(rows, cols, &mut t2)) {
+        Outcome::Ok(mut s) => {
+            st.eval();
+            if !check_views(st, &s, &m2, "construction after a rejected construction", &|| shown.clone()) { return; }
+            let _ = catch(|| s.insert(bad.0, bad.1, Rat::ONE));
+            st.count("rejected-calls:insert");
+            st.eval();
+            check_views(st, &s, &m2, "after a rejected insert", &|| shown.clone());
+        }
+        o => st.violation("C06:construct:panic", format!("{}: {}", shown, o.describe())),
+    }
+}
+
 fn history(st: &mut Stats, rng: &mut Rng, rows: usize, cols: usize) {
     st.next_case();
+    if rng.chance(0.2) { rejected_calls(st, rng); }
     let dens = *rng.pick(&[0.0, 0.1, 0.3, 0.6, 1.0]);
     let mut m = gen_sm(rng, rows, cols, dens, true);
     // sometimes force empty first/last column
@@ -126,6 +155,7 @@ fn history(st: &mut Stats, rng: &mut Rng, rows: usize, cols: usize) {
             }
             4 | 5 => { let f = Rat::int(*rng.pick(&[-2, -1, 2, 3, 0])); for v in m.e.values_mut() { *v = *v * f; } name = format!("scale({:?})", f);
                 if let o @ (Outcome::Panic { .. } | Outcome::Budget) = catch(|| s.scale(&f)) { st.violation("C06:scale:panic", format!("{} {}; {:?}", name, o.describe(), log)); return; } st.count("steps:scale"); }
+            8 => { rejected_calls(st, rng); continue; }
             6 | 7 => { m = m.transpose(); name = "transpose()".to_string();
                 match catch(|| s.transpose()) { Outcome::Ok(t) => s = t, o => { st.violation("C06:transpose:panic", format!("{}; {:?}", o.describe(), log)); return; } } st.count("steps:transpose"); }
             _ => continue,
